@@ -1033,6 +1033,41 @@ def c06_pyhash(R):
             )
     if not any(dotted(c.func) == "hash" for c in _calls(fn)):
         R.ok(m, fn, "_arg_serialize does not use builtin hash()")
+    # the argument classes of the op registry that are neither ASTs nor Python primitives (floating-point sorts,
+    # rounding modes) are serialised by a branch of their own: the fallback hashes a str for them, which differs from
+    # process to process, and the frontends pickle AST hashes
+    from ..optable import Registry
+
+    reg = Registry(tree)
+    prim = {"int", "str", "float", "bool", "bytes", "object", "None", "type(None)"}
+    ast_classes = {q for mm in tree.modules.values() if mm.path.startswith("claripy/ast/") for q in mm.classes}
+    internal = set()
+    for d in reg.ops_by_name().values():
+        for dd in d if isinstance(d, list) else [d]:
+            ts = dd.arg_types if isinstance(dd.arg_types, tuple) else (dd.arg_types,)
+            for t in ts:
+                for part in re.split(r"[|,\s()\[\]]+", t if isinstance(t, str) else ""):
+                    name = part.split(".")[-1]
+                    if name and name[0].isupper() and name not in ast_classes and name not in prim and name not in ("Base", "Bits", "ArgType", "Union", "Optional"):
+                        internal.add(name)
+    tested = set()
+    for c in _calls(fn):
+        if dotted(c.func) == "isinstance" and len(c.args) == 2:
+            for x in ast.walk(c.args[1]):
+                if isinstance(x, (ast.Name, ast.Attribute)):
+                    tested.add((dotted(x) or "").split(".")[-1])
+    R.need(internal, "no non-AST argument classes found in the op registry (FSort, RM expected)")
+    for name in sorted(internal):
+        R.check(
+            name in tested,
+            m,
+            fn,
+            f"{name} arguments are serialised by their fields",
+            f"Base._arg_serialize has no branch for {name}, an argument class of the op registry: it falls through to hash(), i.e. "
+            f"to the hash of a str, which depends on PYTHONHASHSEED - the frontends pickle AST hashes, and a SolverReplacement with "
+            f"f -> 2.5 unpickled in a fresh process had lost the replacement",
+            construct=f"_arg_serialize: no branch for {name}",
+        )
     ma = tree.mod(ANN)
     for q, c in ma.classes.items():
         h = util.methods_of(c).get("__hash__")
